@@ -7,8 +7,8 @@ copy and require a VIOLATION.  Nothing here is part of MANIFEST commands.
 import os, sys, subprocess, shutil, re, json, time, glob
 
 ROOT = os.path.dirname(os.path.dirname(os.path.abspath(__file__)))
-SCRATCH = '/tmp/vf-selftest'
-SBUILD = '/tmp/vf-selftest-build'
+SCRATCH = os.environ.get('VERIF_SELFTEST_DIR', '/tmp/vf-selftest')          # several selftests can run side by side with different directories
+SBUILD = SCRATCH + '-build'
 
 
 def sh(cmd, **kw):
